@@ -394,7 +394,7 @@ pub fn analyse(case: &LoopCase, result: &Result<(), String>, d: &Driver, sel: u3
 fn gen_loop_case(src: &mut Src, which: u32, quick: bool) -> Option<LoopCase> {
   let (fam, tablet_percent, timeout_percent) = match which {
     10 => (match src.weighted(&[35, 25, 20, 20]) { 0 => Family::General, 1 => Family::RepeatDense, 2 => Family::Tagged, _ => Family::AbsorbingDense }, if src.chance(35) { 12 } else { 0 }, 12),
-    11 => (Family::RepeatDense, if src.chance(25) { 8 } else { 0 }, 40),
+    11 => (Family::RepeatDense, if src.chance(25) { 8 } else { 0 }, 52),
     12 => (match src.weighted(&[40, 30, 30]) { 0 => Family::RepeatDense, 1 => Family::General, _ => Family::AbsorbingDense }, 30, 20),
     _ => (match src.weighted(&[40, 40, 20]) { 0 => Family::General, 1 => Family::RepeatDense, _ => Family::AbsorbingDense }, 15, 20),
   };
@@ -439,9 +439,41 @@ fn gen_loop_case(src: &mut Src, which: u32, quick: bool) -> Option<LoopCase> {
     }
     g = loaded(g)?;
   }
-  let hist = HistOpts { max_events: if quick { 30 } else { 80 }, max_held: 5, raw_percent: 7, release_all_percent: 0 };
-  let kb: Vec<Event> = gen_history(src, &g.alphabet, &hist).into_iter().filter_map(|s| match s { Step::Ev(e) => Some(e), _ => None }).collect();
-  let so = SchedOpts { tablet_percent, timeout_percent, allow_interrupt: true, max_batch: 6 };
+  let hist = HistOpts { max_events: if src.chance(12) { 120 } else if quick { 30 } else { 80 }, max_held: 5, raw_percent: 7, release_all_percent: 0 };
+  let mut kb: Vec<Event> = gen_history(src, &g.alphabet, &hist).into_iter().filter_map(|s| match s { Step::Ev(e) => Some(e), _ => None }).collect();
+  if which == 11 && src.chance(75) {
+    // make a Special mapping fire by construction: press its trigger keys somewhere in the history
+    let specials: Vec<Mapping> = g.layout.mappings.iter().filter(|m| matches!(m.repeat, Repeat::Special { .. })).cloned().collect();
+    if !specials.is_empty() {
+      let m = src.pick(&specials);
+      let at = if src.chance(35) { kb.len() } else { src.below(kb.len() + 1) };
+      let mut held: Vec<KeyCode> = Vec::new();
+      for e in &kb[..at] {
+        match e {
+          Event::Pressed(k) => {
+            if !held.contains(k) {
+              held.push(*k);
+            }
+          }
+          Event::Released(k) => held.retain(|x| x != k),
+        }
+      }
+      let mut ins: Vec<Event> = Vec::new();
+      let fk = *m.from.last().unwrap();
+      if held.contains(&fk) {
+        ins.push(Event::Released(fk));
+      }
+      for t in &m.from {
+        if *t == fk || !held.contains(t) {
+          ins.push(Event::Pressed(*t));
+        }
+      }
+      for (i, e) in ins.into_iter().enumerate() {
+        kb.insert(at + i, e);
+      }
+    }
+  }
+  let so = SchedOpts { tablet_percent, timeout_percent, allow_interrupt: true, max_batch: if which == 11 && src.chance(70) { 2 } else { 64 } };
   let script = gen_script(src, kb, &so, real_sleep);
   Some(LoopCase { layout: g.layout, script, family: g.family })
 }
@@ -670,7 +702,7 @@ pub fn check_trace_prop(which: u32, cfg: &RunCfg, findings: &Findings) -> Report
   if replay_regressions(which, &name, &mut rep, &run) {
     return rep;
   }
-  let per_shard: u32 = if quick { 2_500 } else { 60_000 };
+  let per_shard: u32 = if quick { 20_000 } else { 150_000 };
   let (st, fail) = run_prop(
     cfg,
     &format!("{}-random", name),
@@ -806,7 +838,7 @@ pub fn check_c20(cfg: &RunCfg, _findings: &Findings) -> Report {
     cfg,
     "C20-random",
     16,
-    if quick { 500 } else { 12_000 },
+    if quick { 2_000 } else { 30_000 },
     64,
     if quick { 260 } else { 400 },
     |src: &mut Src| {
